@@ -234,6 +234,123 @@ func c12Run(r *Run) {
 		}
 	}
 
+	// OWN (fresh): every TempVM gets tables of its own — no value copy of a TempVM (a struct copy shares
+	// the map headers), and a composite literal fills the table fields with storage built on the spot
+	{
+		isFreshStorage := func(e ast.Expr) bool {
+			var fresh func(e ast.Expr, depth int) bool
+			fresh = func(e ast.Expr, depth int) bool {
+				switch x := ast.Unparen(e).(type) {
+				case *ast.CompositeLit:
+					return true
+				case *ast.UnaryExpr:
+					_, isLit := ast.Unparen(x.X).(*ast.CompositeLit)
+					return x.Op == token.AND && isLit
+				case *ast.Ident:
+					return x.Name == "nil"
+				case *ast.CallExpr:
+					if id, ok := ast.Unparen(x.Fun).(*ast.Ident); ok && (id.Name == "make" || id.Name == "new") {
+						if _, isBuiltin := info.Uses[id].(*types.Builtin); isBuiltin {
+							return true
+						}
+					}
+					if depth >= 2 {
+						return false
+					}
+					cal := calleeFunc(info, x)
+					if cal == nil || cal.Pkg() != pkg.Types {
+						return false
+					}
+					hd := declOf(pkg, cal)
+					if hd == nil || hd.Body == nil {
+						return false
+					}
+					all, n := true, 0
+					ast.Inspect(hd.Body, func(m ast.Node) bool {
+						if _, ok := m.(*ast.FuncLit); ok {
+							return false
+						}
+						if rs, ok := m.(*ast.ReturnStmt); ok && len(rs.Results) == 1 {
+							n++
+							if !fresh(rs.Results[0], depth+1) {
+								all = false
+							}
+						}
+						return true
+					})
+					return n > 0 && all
+				}
+				return false
+			}
+			return fresh(e, 0)
+		}
+		// storage fields: maps, and pointers to package structs that hold maps
+		storage := map[*types.Var]bool{}
+		for i := 0; i < tst.NumFields(); i++ {
+			f := tst.Field(i)
+			if ownMaps[f] {
+				storage[f] = true
+				continue
+			}
+			if f == fBase {
+				continue
+			}
+			if pt, ok := f.Type().(*types.Pointer); ok {
+				if nt := namedOf(pt.Elem()); nt != nil && nt.Obj().Pkg() == pkg.Types && nt != vm && nt != tvm {
+					if st, ok := nt.Underlying().(*types.Struct); ok {
+						for j := 0; j < st.NumFields(); j++ {
+							if _, isMap := st.Field(j).Type().Underlying().(*types.Map); isMap {
+								storage[f] = true
+							}
+						}
+					}
+				}
+			}
+		}
+		nLits := 0
+		for _, fd := range funcDecls(pkg) {
+			fk := funcKey(pkg, fd)
+			ast.Inspect(fd.Body, func(n ast.Node) bool {
+				switch x := n.(type) {
+				case *ast.StarExpr:
+					// *p used as a value of type TempVM (t := *proto): the copy shares every table
+					if tv, ok := info.Types[x]; ok && tv.IsValue() && namedOf(tv.Type) == tvm {
+						if _, isPtr := tv.Type.(*types.Pointer); !isPtr {
+							r.bad(fk+"#tempvm-value-copy", x.Pos(), "a TempVM is created by copying another TempVM value ("+exprStr(x)+"): the copy shares the class, interface and function tables of the original, so definitions of one request are visible to the others")
+						}
+					}
+				case *ast.CompositeLit:
+					if namedOf(info.TypeOf(x)) != tvm {
+						return true
+					}
+					nLits++
+					okAll := true
+					for _, el := range x.Elts {
+						kv, ok := el.(*ast.KeyValueExpr)
+						if !ok {
+							continue
+						}
+						id, ok := kv.Key.(*ast.Ident)
+						if !ok {
+							continue
+						}
+						if f, ok := info.Uses[id].(*types.Var); ok && storage[f] && !isFreshStorage(kv.Value) {
+							okAll = false
+							r.bad(fk+"#fresh-table:"+f.Name(), kv.Pos(), "the "+f.Name()+" table of a new TempVM is not built on the spot ("+exprStr(kv.Value)+"): temporary VMs share it")
+						}
+					}
+					if okAll {
+						r.ok(fk+"#fresh-tables", x.Pos(), "a new TempVM gets tables built for it (or none, created on first use)")
+					}
+				}
+				return true
+			})
+		}
+		if nLits == 0 {
+			r.fail("no composite literal of runtime.TempVM found: the constructor moved")
+		}
+	}
+
 	// ---- DELEG: which *VM methods can reach a (*VM) method that stores a definition ----
 	r.curRule = "C12-DELEG"
 	// a definition store: vm.F[k] = v or vm.F.Store(k, v) with v a class/interface/function statement
